@@ -61,7 +61,8 @@ def check(case):
 
     def fail(bucket, detail):
         if not any(x[0] == bucket for x in fails):
-            fails.append((bucket, detail, {"nonorthogonal_spacing_method": nm}))
+            fails.append((bucket, detail, {"nonorthogonal_spacing_method": nm, "guard_cell": gridcheck.in_guard_cells(side, detail),
+                                           "family": case.desc["family"]}))
 
     def margin(name, v):
         if numpy.isfinite(v):
